@@ -247,7 +247,14 @@ def build_score(rng, parts, kinds, durs):
             k = [x for x in kinds if x not in gen.REL] if p.startswith('drum') else kinds
             sc[p] = gen.rand_melody(rng, kinds=k, p_rest=0.15, p_cont=0.2, vals=(0, 8), octs=(-1, 1), p_amp=0.4, durs=durs)
         chords.append(c(**sc))
-    return Score(chords)
+    score = Score(chords)
+    if rng.random() < 0.2:        # arbitrary amplitudes 1..127, not only the nine dynamics figures (seed C03-4)
+        for ch in score.chords:
+            for m in ch.score.values():
+                for n in m.notes:
+                    if n.type not in ('r', 'l') and rng.random() < 0.4:
+                        n.amp = rng.choice([1, 20, 115, 119, 120, 121, 124, 126, 127, rng.randint(1, 127)])
+    return score
 
 
 def domain_ok(score):
@@ -383,7 +390,7 @@ def correspondence(ctx):
         line = sx('midi', enc_score(s), tempo, ts[0], ts[1])
         impl = py_res(lambda: export_score(s, tempo, ts))
         cases.append({'line': line, 'impl': impl, 'canon': canon_model,
-                      'input': {'score': text, 'tempo': tempo, 'ts': list(ts)},
+                      'input': {'score': text, 'tempo': tempo, 'ts': list(ts), 'amps': sound.amps_of(s)},
                       'bucket': ft + [f'tempo={tempo}', f'ts={ts[0]}/{ts[1]}', 'result=' + (impl if impl.startswith('ERR:') else 'file')]
                       + (['tempo/pedal-notes'] if deco else []),
                       'nontrivial': 'multi-part' in ft or 'cont' in ft})
@@ -434,7 +441,7 @@ def expected_file(score, tempo, ts):
 
 def check_file(inp):
     """oracle `file`: export, read back with the independent reader, compare with the property"""
-    s = sound.load_score(inp['score'])
+    s = sound.load_score(inp['score'], inp.get('amps'))
     tempo, ts = inp['tempo'], tuple(inp['ts'])
     exp = expected_file(s, tempo, ts)
     path = tmp_path()
@@ -577,13 +584,13 @@ def oracle(ctx):
     todo = [dict(w) for w in WITNESSES]
     for st, i in ctx.suspects:
         if i and 'score' in i:
-            todo.append({'score': i['score'], 'tempo': i.get('tempo', 120), 'ts': i.get('ts', [4, 4])})
+            todo.append({'score': i['score'], 'tempo': i.get('tempo', 120), 'ts': i.get('ts', [4, 4]), 'amps': i.get('amps')})
     for _ in range(ctx.n(450, 5000)):
         s = rand_score(ctx, referenced=True, in_range=True)
-        todo.append({'score': str(s), 'tempo': rng.choice(TEMPI), 'ts': list(rng.choice(SIGS))})
+        todo.append({'score': str(s), 'tempo': rng.choice(TEMPI), 'ts': list(rng.choice(SIGS)), 'amps': sound.amps_of(s)})
     for inp in todo:
         try:
-            s = sound.load_score(inp['score'])
+            s = sound.load_score(inp['score'], inp.get('amps'))
         except Exception:
             continue
         if not sound.well_referenced(s) or not domain_ok(s) or inp['tempo'] < 4 or tuple(inp['ts']) not in SIGS:
